@@ -89,6 +89,17 @@ DIRECTIONS = {
          "string, an exact length, an exact count such as the 256th or 65536th occurrence), or an order of events that a generator "
          "biased towards 'typical' sessions does not emit. It must still be something a real user could meet. Say in your notes which "
          "clause you chose and why you think it was the least exercised. Avoid what the earlier notes below already did."),
+    11: ("This round, work from the STATEMENT and from the CODE PATHS: list the functions and branches in the files named above that "
+         "take part in this property, mark those that the ten earlier changes listed below have touched, and put your change into a "
+         "function or branch that none of them touched (if all were touched, into a different statement of it with a different "
+         "effect). Assume that whoever checks this property already runs a strong randomised and enumerative test of it (random valid "
+         "and boundary inputs, every field class, random histories and interleavings with loss / duplication / reordering, faults "
+         "and close() at every event-loop step, several objects and clients per process, odd configurations and argument types, moving "
+         "and backward clocks, other time zones, log levels, python -O, sessions of thousands of messages): your change must survive "
+         "that unless the trigger is deliberately constructed - a precise conjunction of three or four conditions, one exact value "
+         "out of a 16-, 32- or 64-bit space that is neither a boundary nor a table entry, an exact count, or an order of events that "
+         "'typical' sessions do not contain - and it must still be something a real installation could meet. Say in your notes which "
+         "code path you chose and why. Avoid what the earlier notes below already did."),
 }
 
 
